@@ -42,6 +42,7 @@ FloorMod(a, b) == a - b * FloorDiv(a, b)
 IsList(v, h) == v.t = "ref" /\ h[v.a].kind = "list"
 IsDict(v, h) == v.t = "ref" /\ h[v.a].kind = "dict"
 IsFn(v, h) == v.t = "ref" /\ h[v.a].kind = "fn"
+IsSet(v, h) == v.t = "ref" /\ h[v.a].kind = "set"
 
 TypeName(v, h) ==
     IF v.t = "none" THEN "NoneType"
@@ -62,7 +63,7 @@ TypeNameCP(v, h) ==
     ELSE IF v.t = "tuple" THEN <<116, 117, 112, 108, 101>>
     ELSE IF v.t = "range" THEN <<114, 97, 110, 103, 101>>
     ELSE IF v.t = "bi" \/ v.t = "bm" THEN <<98, 117, 105, 108, 116, 105, 110, 95, 102, 117, 110, 99, 116, 105, 111, 110, 95, 111, 114, 95, 109, 101, 116, 104, 111, 100>>
-    ELSE IF v.t = "ref" THEN (IF h[v.a].kind = "fn" THEN <<102, 117, 110, 99, 116, 105, 111, 110>> ELSE IF h[v.a].kind = "list" THEN <<108, 105, 115, 116>> ELSE <<100, 105, 99, 116>>)
+    ELSE IF v.t = "ref" THEN (IF h[v.a].kind = "fn" THEN <<102, 117, 110, 99, 116, 105, 111, 110>> ELSE IF h[v.a].kind = "list" THEN <<108, 105, 115, 116>> ELSE IF h[v.a].kind = "set" THEN <<115, 101, 116>> ELSE <<100, 105, 99, 116>>)
     ELSE <<63>>
 
 (* ---- ranges ---- *)
@@ -94,6 +95,8 @@ Eq(a, b, h) ==
            IF x.kind # y.kind THEN FALSE
            ELSE IF x.kind = "list" THEN
                (Len(x.items) = Len(y.items) /\ \A i \in 1..Len(x.items) : Eq(x.items[i], y.items[i], h))
+           ELSE IF x.kind = "set" THEN
+               (Len(x.items) = Len(y.items) /\ \A i \in 1..Len(x.items) : DictFindIn(y.items, x.items[i], h) # 0)
            ELSE IF x.kind = "dict" THEN
                (Len(x.keys) = Len(y.keys)
                 /\ \A i \in 1..Len(x.keys) :
@@ -147,7 +150,7 @@ Truth(v, h) ==
     ELSE IF v.t = "tuple" THEN Len(v.v) # 0
     ELSE IF v.t = "range" THEN RangeLen(v) # 0
     ELSE IF v.t = "ref" THEN
-        (IF h[v.a].kind = "list" THEN Len(h[v.a].items) # 0
+        (IF h[v.a].kind = "list" \/ h[v.a].kind = "set" THEN Len(h[v.a].items) # 0
          ELSE IF h[v.a].kind = "dict" THEN Len(h[v.a].keys) # 0
          ELSE TRUE)
     ELSE TRUE
@@ -202,6 +205,8 @@ Repr(v, h, fuel) ==
            \o (IF v.c = 1 THEN <<>> ELSE <<44, 32>> \o IntStr(v.c)) \o <<41>>)
     ELSE IF IsList(v, h) THEN
         (<<91>> \o JoinSeq([i \in 1..Len(h[v.a].items) |-> Repr(h[v.a].items[i], h, fuel - 1)], <<44, 32>>, 1) \o <<93>>)
+    ELSE IF IsSet(v, h) THEN
+        (<<115, 101, 116, 40, 91>> \o JoinSeq([i \in 1..Len(h[v.a].items) |-> Repr(h[v.a].items[i], h, fuel - 1)], <<44, 32>>, 1) \o <<93, 41>>)
     ELSE IF IsDict(v, h) THEN
         (<<123>> \o JoinSeq([i \in 1..Len(h[v.a].keys) |->
                     Repr(h[v.a].keys[i], h, fuel - 1) \o <<58, 32>> \o Repr(h[v.a].vals[i], h, fuel - 1)],
@@ -216,7 +221,7 @@ ReprDomain(v, h, fuel) ==
     ELSE IF v.t \in {"none", "bool", "int", "range"} THEN TRUE
     ELSE IF v.t = "str" THEN ReprOk(v.s)
     ELSE IF v.t = "tuple" THEN \A i \in 1..Len(v.v) : ReprDomain(v.v[i], h, fuel - 1)
-    ELSE IF IsList(v, h) THEN \A i \in 1..Len(h[v.a].items) : ReprDomain(h[v.a].items[i], h, fuel - 1)
+    ELSE IF IsList(v, h) \/ IsSet(v, h) THEN \A i \in 1..Len(h[v.a].items) : ReprDomain(h[v.a].items[i], h, fuel - 1)
     ELSE IF IsDict(v, h) THEN
         \A i \in 1..Len(h[v.a].keys) : ReprDomain(h[v.a].keys[i], h, fuel - 1) /\ ReprDomain(h[v.a].vals[i], h, fuel - 1)
     ELSE FALSE
@@ -279,6 +284,7 @@ Enc(v, h, path) ==
         (IF v.a \in path THEN [t |-> "cycle"]
          ELSE LET o == h[v.a] p == path \cup {v.a} IN
            IF o.kind = "list" THEN [t |-> "list", v |-> [i \in 1..Len(o.items) |-> Enc(o.items[i], h, p)]]
+           ELSE IF o.kind = "set" THEN [t |-> "set", v |-> [i \in 1..Len(o.items) |-> Enc(o.items[i], h, p)]]
            ELSE IF o.kind = "dict" THEN
                [t |-> "dict", k |-> [i \in 1..Len(o.keys) |-> Enc(o.keys[i], h, p)],
                               v |-> [i \in 1..Len(o.vals) |-> Enc(o.vals[i], h, p)]]
@@ -296,7 +302,7 @@ EncEq(a, b) ==
     ELSE IF a.t = "bool" THEN a.b = b.b
     ELSE IF a.t = "int" THEN a.v = b.v
     ELSE IF a.t = "str" THEN (Len(a.s) = Len(b.s) /\ \A i \in 1..Len(a.s) : a.s[i] = b.s[i])
-    ELSE IF a.t \in {"tuple", "list"} THEN (Len(a.v) = Len(b.v) /\ \A i \in 1..Len(a.v) : EncEq(a.v[i], b.v[i]))
+    ELSE IF a.t \in {"tuple", "list", "set"} THEN (Len(a.v) = Len(b.v) /\ \A i \in 1..Len(a.v) : EncEq(a.v[i], b.v[i]))
     ELSE IF a.t = "dict" THEN
         (Len(a.k) = Len(b.k) /\ Len(a.v) = Len(b.v)
          /\ \A i \in 1..Len(a.k) : EncEq(a.k[i], b.k[i]) /\ EncEq(a.v[i], b.v[i]))
